@@ -41,6 +41,36 @@ def build(m, cfg):
     return md
 
 
+_fixtures = None
+
+
+def fixtures():
+    """a directory of files for documents that are converted with a file context (Markdown.read): include targets"""
+    global _fixtures
+    if _fixtures is None:
+        import atexit
+        import shutil
+        import tempfile
+        d = tempfile.mkdtemp(prefix="mv_fc_")
+        atexit.register(shutil.rmtree, d, True)
+        os.mkdir(os.path.join(d, "sub"))
+        files = {"data.txt": b"plain <x9 y9=1> text &amp; \"q\"\n", "part.md": b"# part <x9>\n\n[a](javascript:x) *em*\n\n```{include} data.txt\n```\n",
+                 "frag.html": b"<div onclick=x9()>frag</div>\n", "latin1.txt": b"caf\xe9 <x9>\n", "empty.txt": b"", "bom.md": b"\xef\xbb\xbf# bom\n",
+                 "utf16.txt": "text <x9>".encode("utf-16"), os.path.join("sub", "inner.md"): b".. include:: ../data.txt\n\n```{include} ../part.md\n```\n"}
+        for name, data in files.items():
+            with open(os.path.join(d, name), "wb") as f:
+                f.write(data)
+        _fixtures = d
+    return _fixtures
+
+
+def convert_file(md, doc):
+    path = os.path.join(fixtures(), "main.md")
+    with open(path, "wb") as f:
+        f.write(doc.encode("utf-8", "surrogatepass"))
+    return md.read(path)[0]
+
+
 def main():
     m = common.import_impl()
     sys.setrecursionlimit(1000)
@@ -53,6 +83,8 @@ def main():
             t0 = time.process_time()
             if t["cfg"].get("api") == "markdown()":
                 v = m.markdown(t["doc"], escape=t["cfg"].get("escape", True), plugins=t["cfg"].get("plugins"))
+            elif t["cfg"].get("filectx"):
+                v = convert_file(md, t["doc"])
             else:
                 v = md(t["doc"])
             res["cpu"] = time.process_time() - t0
